@@ -8,6 +8,7 @@ from hypothesis import strategies as st
 
 from .. import sched
 from ..common import Run, ShardResult, run_shards, scratch, spec_hash, verif_seed
+from ..common import thorough  # noqa: E402
 from ..hyp import Outcome, drive
 
 PROP = "C14"
@@ -165,7 +166,7 @@ def shard(shard, nshards, n, tier, seed):
 
 def run(tier: str) -> int:
     run_ = Run(PROP, tier, "exploration", RULE)
-    n = 3 if tier == "quick" else 40
+    n = 3 if tier == "quick" else thorough(16)
     for part in run_shards(shard, 16, n=n, tier=tier, seed=verif_seed()):
         run_.merge(part)
     run_.assumptions = [
